@@ -195,7 +195,7 @@ def run(ctx):
 
     # ---- R5 back-off loop
     r = ctx.rule("R5", "connect failure: stop when closing, else count, policy delay, delayed retry kept in `connector`; "
-                       "success resets the count", 9, "B+E")
+                       "success resets the count; the loop ends when nothing waits", 10, "B+E")
     # the connect loop, identified by role (not by name).  An *attempt site* is a statement that stores a
     # maybeDeferred(...) attempt in `connector`; the function holding it (a closure of _connect, or _connect itself)
     # registers the success / failure handlers on it.  All sites must agree on the handlers.
@@ -277,6 +277,16 @@ def run(ctx):
                 "timer, nor a new attempt started)" % g.name, where(g, g.node),
                 "all queued requests cancelled during a failed attempt / back-off: the early return leaves a stale `connector`; makeRequest "
                 "only connects when `not self.connector`, so every later request is queued for ever")
+    # the loop goes on only while something is waiting to be sent: the retry after the back-off is made with a non-empty
+    # table (every request may have been cancelled - timed out - meanwhile; the next request then connects)
+    if cbd is not None:
+        cgd = ctx.cfg(cbd)
+        fgd = ctx.facts(cbd)
+        again_nodes = [n for n in cgd.nodes if any(prog.resolve_call(cbd, c) in starters for c in n.calls())] + [sn for sg, sn, so in sites if sg is cbd]
+        r.check(bool(again_nodes) and all(known_truthy(fgd[n.id], "self.requests") for n in again_nodes), "%s#retries-only-with-requests-waiting" % cbd.qname,
+                "after the back-off another connection attempt is made whether or not a request is still waiting", where(cbd, cbd.node),
+                "a broker stays down, every request to it times out: the client keeps dialling it for ever, and re-opens the connection "
+                "when it comes back although nothing is to be sent")
     regs = registrations(eb, prog)
     rd = [g for g in regs if g["cb"] is not None and prog.resolve_callable(eb, g["cb"]) is not None]
     again = any(any(prog.resolve_call(prog.resolve_callable(eb, g["cb"]), c) in starters for c in calls_in(prog.resolve_callable(eb, g["cb"])))
